@@ -439,7 +439,15 @@ def gen_client(specs):
     importlib.invalidate_caches()
     pkg = impl.Package(root, pkgname)
     try:
-        mods = {n: pkg.mod(n) for n in out.api.namespaces if n != 'stone_cfg'}
+        mods = {}
+        for n in out.api.namespaces:
+            if n == 'stone_cfg':
+                continue
+            try:
+                mods[n] = pkg.mod(n)
+            except ModuleNotFoundError:
+                # a namespace named like a Python keyword lives in a module with a respelled name; the name handed to request() stays the spec's
+                mods[n] = importlib.import_module('%s.%s_' % (pkgname, n))
         client = importlib.import_module(pkgname + '.client')
     except Exception as e:  # noqa
         import traceback
@@ -519,6 +527,16 @@ def iso_scenarios(tier):
     text = ('namespace iso\n\nunion HTTPMethod\n    getIt\n    put_it\n    DELETE\n\nunion plainMode\n    readOnly\n    rw\n\nstruct Arg\n    a Int32\n    m HTTPMethod = getIt\n    p plainMode = readOnly\n    d HTTPMethod = DELETE\n\n'
             'route r(Arg, Void, Void)\n')
     out.append(('iso:respelled-tag-default', [('iso.stone', text), CFG], 'respelled'))
+    # (b6) namespaces named like Python keywords (the module is respelled; the namespace name handed to request() is the spec's)
+    for kw_ns in ('async', 'pass', 'while', 'class', 'for', 'break', 'continue'):
+        for with_other in (False, True):
+            files = [('%s.stone' % kw_ns, 'namespace %s\n\nstruct Arg\n    a Int32\n    b String = "x"\n\nroute get(Arg, Void, Void)\n\nroute get:2(Void, Void, Void)\n' % kw_ns), CFG]
+            calls = [('%s_get' % kw_ns, kw_ns, 'get', ('struct', kw_ns, 'Arg', {'a': 4, 'b': 'x'}), [4], {}, False, True, 'rpc'),
+                     ('%s_get_v2' % kw_ns, kw_ns, 'get_v2', None, [], {}, False, True, 'rpc')]
+            if with_other:
+                files.insert(1, ('plain.stone', 'namespace plain\n\nstruct Parg\n    p Int32\n\nroute get(Parg, Void, Void)\n'))
+                calls.append(('plain_get', 'plain', 'get', ('struct', 'plain', 'Parg', {'p': 2}), [2], {}, False, True, 'rpc'))
+            out.append(('iso:keyword-namespace:%s:%s' % (kw_ns, 'with-plain' if with_other else 'alone'), files, calls))
     # (b3) route names that differ only in style map to one Python name: the backends must refuse them, whatever else the namespace holds
     for a, b in (('get/metadata', 'get_metadata'), ('getMeta', 'get_meta'), ('a/b', 'a_b')):
         for extra_v2 in (False, True):
